@@ -4,7 +4,6 @@ open SioVerif SioVerif.HB
 
 namespace Driver
 
-def commaNats (s : String) : List Nat := if s = "-" || s = "" then [] else (s.splitOn ",").filterMap String.toNat?
 
 def hbLine (toks : List String) : String :=
   match toks with
